@@ -167,11 +167,7 @@ func (f *frame) havocLvalue(st *State, env *specEnv, a Expr, callee *ssa.Functio
 		case "ghost":
 			name := n.Args[0].(*EIdent).Name
 			if sort, ok := ex.prog.spec.GhostVars[name]; ok {
-				if sort == SBool {
-					st.ghost[name] = VBool{ex.decls.fresh("gv_"+name, SBool)}
-				} else {
-					st.ghost[name] = VInt{ex.decls.fresh("gv_"+name, SInt)}
-				}
+				st.ghost[name] = ex.freshGhost(st, name, sort)
 				return
 			}
 			delete(st.ghost, name)
